@@ -254,6 +254,14 @@ def _install():
         if r["released"] is None:
             r["released"] = ctx.clock
         ctx.count("releases")
+        # C02: the release time the harness itself declared for this task (Task.release() overwrites the task's own field,
+        # so the declared value is kept apart): a task is not released -- and below: not started -- before it
+        spec = ctx.task_spec.get(r["key"])
+        if spec is not None and spec["release"] >= 0:
+            ctx.count("releases_with_declared_time")
+            if ctx.clock < spec["release"]:
+                ctx.violate("C02", "released_before_own_release_time",
+                            f"{r['key'][1]}@{r['key'][2]} of {r['key'][0]} released at {ctx.clock}, its declared release time is {spec['release']}")
     wrap(Task, "release", after=release_after)
 
     @active
@@ -277,6 +285,9 @@ def _install():
             ctx.violate("C02", "start_before_release", f"{name} started at {t}, no release observed")
         if self.release_time is not None and not self.release_time.is_invalid() and t < self.release_time.time:
             ctx.violate("C02", "start_before_release", f"{name} started at {t} < release time {self.release_time.time}")
+        spec = ctx.task_spec.get(r["key"])
+        if spec is not None and spec["release"] >= 0 and t < spec["release"]:
+            ctx.violate("C02", "start_before_release", f"{name} started at {t} < its declared release time {spec['release']}")
         missing = []
         for pk in ctx.parents.get(r["key"], ()):  # the harness' own edge list
             pr = ctx.by_key.get(pk)
